@@ -1,5 +1,5 @@
 """C01 — pagination conserves content."""
-from harness import docs, pm, pm_corr, pm_foot_corr, pm_oof_corr, pm_stage2, wide_trace
+from harness import docs, pm, pm_col_corr, pm_corr, pm_foot_corr, pm_oof_corr, pm_stage2, wide_trace
 from vlib.framework import PropCheck
 
 
@@ -7,7 +7,8 @@ class C01(PropCheck):
     id = 'C01'
     extractors = ()
     modules = ('WpModel.Props.C01', 'WpModel.Props.C01Trace', 'WpModel.Props.C01Pm2', 'WpModel.Witness.C01Pm2',
-               'WpModel.Props.C01Oof', 'WpModel.Witness.C01Oof', 'WpModel.Props.C01Foot', 'WpModel.Witness.C01Foot')
+               'WpModel.Props.C01Oof', 'WpModel.Witness.C01Oof', 'WpModel.Props.C01Foot', 'WpModel.Witness.C01Foot',
+               'WpModel.Props.C01Col', 'WpModel.Witness.C01Col')
     trusted_base = (
         'modelled, not verified: block.py block_level_layout/block_container_layout/_in_flow_layout/_linebox_layout/'
         '_break_line/find_earlier_page_break, page.py make_page/remake_page/make_all_pages as lean/WpModel/Model/'
@@ -39,6 +40,13 @@ class C01(PropCheck):
             'compared exactly including the footnote area of every page and the footnotes left pending; non-trivial '
             '= at least 2 pages and at least one footnote')
         pm_foot_corr.add_cases(run, sec_foot, run.n(100, 3000))
+        sec_col = run.section(
+            'pm-col-documents',
+            'stage 2c of the pagination model (Model/PaginateCol): multi-column containers (column-count 1-4, '
+            'column-fill balance/auto, container heights, column-span:all children, rtl) holding paragraphs and '
+            'blocks, inside the block flow; whole pagination compared exactly including the x position of every '
+            'column box and the balancing result; non-trivial = at least 2 pages and a container')
+        pm_col_corr.add_cases(run, sec_col, run.n(100, 3000))
         sec2 = run.section(
             'wide-traces',
             'documents of the wide grammar (nested blocks, inline markup, lists, tables with head/foot, multi-column, '
@@ -112,7 +120,8 @@ class C01(PropCheck):
                 'table-in-columns-duplicates-rows': lambda: corpus_fails('table_in_columns_duplicates_rows'),
                 'stale-next-page-scatters-fragments': stale_next_page,
                 'absolute-placeholder-survives-abort': pm_oof_corr.finding_replays()['absolute-placeholder-survives-abort'],
-                'footnote-named-page-lost': pm_foot_corr.FINDING_REPLAYS['footnote-named-page-lost']}
+                'footnote-named-page-lost': pm_foot_corr.FINDING_REPLAYS['footnote-named-page-lost'],
+                'column-group-dropped-span-duplicated': lambda: pm_col_corr.replay_witness('colspan_group_dropped')}
 
     def replay(self, data):
         inp = data.get('input', {})
